@@ -28,21 +28,37 @@ theorem spec_processMessage_sp (S : Spool) (hS : SpoolShape S) (env : PEnv) (orc
   simp only [spoolMd, bind_eq, pure_eq, call_bind, hfiles]
   refine wp_bind_mono (spec_messageParseP_sp S True [input] S.sp name0 S.d S.sp name0 input hroot
     (fun _ => ⟨fid0, hgood0⟩)) ?_
-  rintro pm w1 ⟨inv1, hdirs1, htr1, hpm⟩
-  obtain ⟨f1, hg1⟩ := htr1 trivial
-  have all1 : SpoolAll S w w1 := ⟨inv1.toX _, two0 w1 (dir_of_dirs hdirs1)⟩
+  rintro pm w10 ⟨inv10, hdirs10, htr10, hpm⟩
   cases pm with
-  | none => exact ⟨rfl, all1, by intro h; cases h⟩
+  | none =>
+    have all10 : SpoolAll S w w10 := ⟨inv10.toX _, two0 w10 (dir_of_dirs hdirs10)⟩
+    exact ⟨rfl, all10, by intro h; cases h⟩
   | some ms =>
-    obtain ⟨⟨hname, hpath, hmsg, hparts, hflags⟩, fd, hfd, hfdge, hfdlt⟩ := hpm ms rfl
+    obtain ⟨⟨hname, hpath, hmsg, hparts, hflags⟩, fd, hfd, hfdge, hfdlt0⟩ := hpm ms rfl
     obtain ⟨n, p, fdo, m, ps, fl, loc, ct⟩ := ms
     dsimp only at hname hpath hmsg hparts hflags hfd
     subst hname hpath hmsg hparts hfd
     dsimp only
+    -- evaluation: the questions to the operating system leave directories, files and older handles alone
+    refine wp_bind_mono (wp_inv_mono (wp_evalFoot _ expr (parseMessage input) fl w10) (fun _ _ => trivial)) ?_
+    rintro ev w1 ⟨ef, as, hev⟩
+    have inv1 : Inv S w w1 := inv10.ofFreshN ef.dirs (fun x hx => ef.objs x (Nat.lt_of_lt_of_le hx inv10.len)) ef.len
+    have hdirs1 : w1.dirs = w.dirs := ef.dirs.trans hdirs10
+    have hfdlt : fd < w1.handles.length := Nat.lt_of_lt_of_le hfdlt0 ef.len
+    obtain ⟨f1, hg10⟩ := htr10 trivial
+    have hg1 : GoodAt w1 [input] S.sp n f1 := by
+      obtain ⟨a1, a2, f, a3, a4, a5⟩ := hg10
+      exact ⟨by rw [lookup_of_dirs ef.dirs]; exact a1, by rw [ef.nextFid]; exact a2, f,
+        by unfold World.file; rw [ef.files]; exact a3, a4, a5⟩
+    have all1 : SpoolAll S w w1 := ⟨inv1.toX _, two0 w1 (dir_of_dirs hdirs1)⟩
+    -- the verdict on the value of evaluation is the verdict for the answers the world gave
+    have hva : verdictOfEv env orc (parseMessage input) ((getAttachments (parseMessage input)).getD []) (S.sp ++ [47] ++ n) ev =
+        stdinVerdictA env orc expr input (S.sp ++ [47] ++ n) fl as := by
+      rw [hev]; rfl
     have hdfd : S.d < fd := Nat.lt_of_lt_of_le hdlt hfdge
     have closeOnly : ∀ (res : MainSt × Maildir), res.2 = spoolMd S →
         (res.1.error = false → st.error = false ∧
-          DoneV S env input (stdinVerdict env orc expr input (S.sp ++ [47] ++ n) fl) w1) →
+          DoneV S env input (stdinVerdictA env orc expr input (S.sp ++ [47] ++ n) fl as) w1) →
         wp (fun _ => True)
           ((match (some fd : Option Handle) with
             | some h => Prog.call (Call.close h) fun _ => Prog.ret ()
@@ -52,21 +68,25 @@ theorem spec_processMessage_sp (S : Spool) (hS : SpoolShape S) (env : PEnv) (orc
       intro res h1 h2
       refine wp_free (some fd) res _ ?_
       rintro w3 (rfl | ⟨f, rc, hf, rfl⟩)
-      · exact ⟨h1, all1, fun he => ⟨(h2 he).1, fl, hflags, (h2 he).2⟩⟩
+      · exact ⟨h1, all1, fun he => ⟨(h2 he).1, fl, as, hflags, (h2 he).2⟩⟩
       · cases hf
-        exact ⟨h1, all1.close _ rc hdfd, fun he => ⟨(h2 he).1, fl, hflags, (h2 he).2.step _ _ trivial⟩⟩
-    split
-    · exact closeOnly _ rfl (by intro h; cases h)
-    · rename_i heq
+        exact ⟨h1, all1.close _ rc hdfd, fun he => ⟨(h2 he).1, fl, as, hflags, (h2 he).2.step _ _ trivial⟩⟩
+    obtain ⟨t, est⟩ := ev
+    cases t with
+    | error => exact closeOnly _ rfl (by intro h; cases h)
+    | «nomatch» =>
       refine closeOnly _ rfl (fun he => ⟨he, ?_⟩)
-      simp only [stdinVerdict, verdictOf, evalEnv, heq]
+      rw [← hva]
       trivial
-    · rename_i est heq
+    | «match» =>
+      dsimp only
       split
       · exact closeOnly _ rfl (by intro h; cases h)
       · rename_i ml msgs hint
-        have hv : stdinVerdict env orc expr input (S.sp ++ [47] ++ n) fl = .actions ml (msgs 0) := by
-          simp only [stdinVerdict, verdictOf, evalEnv, heq, hint]
+        have hv : stdinVerdictA env orc expr input (S.sp ++ [47] ++ n) fl as = .actions ml (msgs 0) := by
+          rw [← hva]
+          simp only [verdictOfEv, evalEnv]
+          rw [hint]
         split
         · rename_i hdry
           refine closeOnly _ rfl (fun he => ⟨he, ?_⟩)
@@ -107,7 +127,7 @@ theorem spec_processMessage_sp (S : Spool) (hS : SpoolShape S) (env : PEnv) (orc
           refine ⟨rfl, all3, ?_⟩
           intro he
           have he' : st.error = false ∧ e = false := by simpa using he
-          refine ⟨he'.1, fl, hflags, ?_⟩
+          refine ⟨he'.1, fl, as, hflags, ?_⟩
           rw [hv]
           intro _ hT hmv hnsd
           obtain ⟨hexok, hch⟩ := hok2 he'.2
